@@ -57,16 +57,16 @@ func runR151(c *core.Ctx) {
 	srcs := []*src{
 		{name: "ResourcePath()", match: func(call *ast.CallExpr) bool {
 			cf := core.Callee(inf, call)
-			return cf != nil && cf.Name() == "ResourcePath"
+			return cf != nil && core.NameOf(cf) == "ResourcePath"
 		}},
 		{name: "EncodeQueryParams()", match: func(call *ast.CallExpr) bool {
 			cf := core.Callee(inf, call)
-			return cf != nil && cf.Name() == "EncodeQueryParams"
+			return cf != nil && core.NameOf(cf) == "EncodeQueryParams"
 		}},
 		{name: "url.Parse(path)", match: func(call *ast.CallExpr) bool { return core.IsFunc(core.Callee(inf, call), "net/url", "Parse") }},
 		{name: "hostname resolver", match: func(call *ast.CallExpr) bool {
 			cf := core.Callee(inf, call)
-			return cf != nil && cf.Name() == "ResolveHostnameAndContextForQuery"
+			return cf != nil && core.NameOf(cf) == "ResolveHostnameAndContextForQuery"
 		}},
 	}
 	// every assignment (plain statement or the init of an if) whose value is one of the calls; its error result must be
